@@ -36,6 +36,9 @@ EXPLANATION = (
     'and location arguments; cli.main converts InvalidSpec to `path:line: error: msg` and '
     'exit 1. Frontend asserts about internal invariants are listed, not judged.')
 ASSUMPTIONS = [
+    'the kinds of values stored in an Environment are the six store sites of ir_generator plus '
+    'the built-in type classes of default_env (re-checked every run; a new store kind is an '
+    'analysis error)',
     'name-based method resolution over stone/frontend and stone/ir over-approximates receivers; '
     'abstract IR classes (never instantiated) are removed from receiver sets',
     'library-may-raise table: strptime -> ValueError (argument is a str by a dominating guard), '
@@ -51,6 +54,11 @@ ASSUMPTIONS = [
 LIB = {
     'datetime.datetime.strptime': ('ValueError',),
     're.compile': ('re.error',),
+}
+EXEMPT_PARAM_ASSERTS = {
+    # default_env is built from IRGenerator.data_types, a list of DataType subclasses, and
+    # _resolve_type passes only env values for which isclass() holds
+    ('_instantiate_data_type', 'issubclass(data_type_class, DataType)'),
 }
 FAMILY_METHODS = ('check', 'check_example', 'check_attr_repr', '_has_example', '_compute_example')
 
@@ -153,6 +161,10 @@ def run(pm, ctx):
             ('C03-R3b', 'family-dispatched checker methods exist on every concrete receiver class'),
             ('C03-R3c', 'query/compute agreement'),
             ('C03-R4', 'sibling p_error functions handle None'),
+            ('C03-R6', 'environment typestate: a value looked up in a symbol environment (type '
+                       'class, Struct/Union/Alias, annotation, annotation type, routes table, '
+                       'imported environment) is used by attribute / `in` / subscript only after '
+                       'tests that exclude every kind lacking that operation'),
             ('C03-R5', 'InvalidSpec objects are well formed; the CLI converts them')):
         ctx.rule(r, t)
     cg, reach, extra_edges, entry, irf = build_scope(pm)
@@ -184,6 +196,14 @@ def run(pm, ctx):
                 and len(f.params) >= 2:
             names = {x.id for x in ast.walk(a.test) if isinstance(x, ast.Name)}
             if f.params[1] in names:
+                return True
+        # the generator's helpers receive names and doc-reference text taken
+        # from the spec: an assert about a parameter is an escape unless exempt
+        if f.module.name == FE + '.ir_generator':
+            names = {x.id for x in ast.walk(a.test) if isinstance(x, ast.Name)}
+            if names & (set(f.params) - {'self', 'cls'}):
+                if (f.name, unparse(a.test)) in EXEMPT_PARAM_ASSERTS:
+                    return False
                 return True
         return False
 
@@ -251,7 +271,9 @@ def run(pm, ctx):
     interface_completeness(pm, ctx, irf)
     query_compute(pm, ctx, irf)
     p_error_siblings(pm, ctx)
+    env_typestate(pm, ctx)
     parse_result_guard(pm, ctx)
+    parser_invariants(pm, ctx)
     invalid_spec_objects(pm, ctx, reach)
 
 
@@ -707,6 +729,39 @@ def query_compute(pm, ctx, irf):
                   key='C03-R3c|%s|shape' % has.qualname)
 
 
+def env_typestate(pm, ctx):
+    from ..envkinds import EnvKinds
+    ek = EnvKinds(pm)
+    n = 0
+    for f in pm.funcs_in('stone.frontend.ir_generator'):
+        bad = {(id(node)): (node, text, op, kinds) for node, text, op, kinds in ek.unsafe_uses(f)}
+        for node, expr, op in ek.uses(f):
+            if isinstance(expr, ast.Name) and expr.id in ('env', 'env_to_check',
+                                                           'annotation_type_env', 'imported_env'):
+                continue
+            if ek.kinds_at(f, node, expr) is None:
+                continue
+            n += 1
+            where = '%s:%d' % (f.module.relpath, node.lineno)
+            if id(node) in bad:
+                _, text, op_, kinds = bad[id(node)]
+                what = op_[5:] if op_.startswith('attr:') else op_
+                ctx.violation('C03-R6', 'C03-R6|%s|%s on %s' % (f.qualname, what, text), where,
+                              '%s applies %s to the environment value %s, which may be of kind %s '
+                              '(no dominating test excludes them): AttributeError/TypeError '
+                              'instead of InvalidSpec' % (f.short, op_, text, kinds[:8]))
+            else:
+                ctx.ok('C03-R6', '%s: %s on %s' % (f.short, op, unparse(expr)[:40]), where)
+        for node, name, kinds in ek.env_name_uses(f):
+            n += 1
+            ctx.violation('C03-R6', 'C03-R6|%s|container use of %s' % (f.qualname, name),
+                          '%s:%d' % (f.module.relpath, node.lineno),
+                          '%s uses %s as a namespace environment after rebinding it to an '
+                          'environment lookup that may be of kind %s: TypeError instead of '
+                          'InvalidSpec' % (f.short, name, kinds[:8]))
+    ctx.floor('C03-R6', n, 5, 'kind-sensitive uses of environment values')
+
+
 def p_error_siblings(pm, ctx):
     sibs = [pm.func(PARSER + '.p_error'), pm.func('stone.cli_helpers.FilterExprParser.p_error')]
     for f in sibs:
@@ -752,6 +807,33 @@ def parse_result_guard(pm, ctx):
               msg='the result of yacc.parse is dereferenced without a None guard (ply returns '
                   'None when it gives up at end of input): AttributeError escapes',
               key='C03-R4|%s|none-result' % f.qualname)
+
+
+def parser_invariants(pm, ctx):
+    """Invariants the generator asserts about AST nodes and the parser must
+    establish (the assert itself is an internal invariant, the establishing
+    check is the obligation)."""
+    f = pm.func(PARSER + '.p_route_version')
+    pi = path_info(f.node)
+    ok = False
+    for n in own_nodes(f.node):
+        if isinstance(n, ast.Call) and unparse(n.func) == 'self.errors.append':
+            ok = ok or any(pol and isinstance(e, ast.Compare) and unparse(e) in
+                           ('p[2] <= 0', 'p[2] < 1') for e, pol in pi.at(n))
+    ctx.check('C03-R4', ok, 'p_route_version records an error for a non-positive version (every '
+              'use of the production: route definitions and `deprecated by`)', f.loc,
+              msg='the route_version production no longer rejects version <= 0: '
+                  '`deprecated by r:0` reaches `assert new_route_version` in '
+                  '_populate_route_attributes_helper (AssertionError)',
+              key='C03-R4|%s|positive-version' % f.qualname)
+    g = pm.func(PARSER + '.p_route_deprecation')
+    ok = any(isinstance(n, ast.Assign) and unparse(n.value) == '(True, p[3], p[4])'
+             for n in own_nodes(g.node)) and \
+        any(isinstance(n, ast.Assign) and unparse(n.value) == '(True, None, None)'
+            for n in own_nodes(g.node))
+    ctx.check('C03-R4', ok, 'p_route_deprecation yields (True, name, version) or (True, None, None)',
+              g.loc, msg='the deprecation tuple shape the generator asserts on changed',
+              key='C03-R4|%s|shape' % g.qualname)
 
 
 def invalid_spec_objects(pm, ctx, reach):
